@@ -21,7 +21,12 @@ func vUniteSetup(timed bool) *vUniteEnv {
 	JS := vParam("JS", 2)
 	K := vParam("K", 3)
 	e := &vUniteEnv{}
-	in := make(chan []int, K+1)
+	lazy := vChoose("lazy-consumer", 2) == 1
+	capIn := K + 1
+	if lazy {
+		capIn = 0
+	}
+	in := make(chan []int, capIn)
 	for i := 0; i < K; i++ {
 		n := vChoose("len", JS+2)
 		s := make([]int, 0, n)
@@ -31,9 +36,23 @@ func vUniteSetup(timed bool) *vUniteEnv {
 			e.flat = append(e.flat, x)
 		}
 		e.inputs = append(e.inputs, s)
-		in <- s
+		if lazy {
+			vPark(in, s)
+		} else {
+			in <- s
+		}
 	}
-	close(in)
+	if lazy {
+		vOnBlock(in, func() {
+			if vIsClosed(in) {
+				vDecline()
+				return
+			}
+			close(in)
+		})
+	} else {
+		close(in)
+	}
 	opts := Opts[int]{Input: in, JoinSize: uint(JS), NoCopy: vChoose("nocopy", 2) == 1}
 	if timed {
 		opts.Timeout = time.Duration(vNondetI64("timeout"))
@@ -44,7 +63,17 @@ func vUniteSetup(timed bool) *vUniteEnv {
 	d, err := New(opts)
 	vAssume(err == nil)
 	e.d = d
-	vSink(d.output)
+	if lazy {
+		vOnBlock(d.output, func() {
+			if len(d.output) == 0 {
+				vDecline()
+				return
+			}
+			<-d.output
+		})
+	} else {
+		vSink(d.output)
+	}
 	vOnSend(d.output, func(v any) {
 		s := v.([]int)
 		vAssert(len(s) > 0, "C03: no output slice is empty")
